@@ -82,3 +82,16 @@ Proof. repeat split; reflexivity. Qed.
 From SymfcG Require Import ShapesBasis ShapesSumRule.
 Theorem c03_recorded_sources2_in_force : ShapesBasis_as_recorded = true /\ ShapesSumRule_as_recorded = true.
 Proof. repeat split; reflexivity. Qed.
+
+(** Auxiliary code on this property's path is the recorded source (the accessors and base constructor of the first-order basis-set class and the first-order atomic index table; the CSR block container DataCSR and the block extraction of the eigen-solvers; the batch-size rule of the second-order sum-rule projector; the rotational-sum-rule projector of order 2):
+    whole-function match, regenerated on every run. *)
+From SymfcG Require Import ShapesAuxO1 ShapesAuxEig ShapesAuxBatch ShapesAuxRot.
+Theorem c03_recorded_sources3_in_force : ShapesAuxO1_as_recorded = true /\ ShapesAuxEig_as_recorded = true /\ ShapesAuxBatch_as_recorded = true /\ ShapesAuxRot_as_recorded = true.
+Proof. repeat split; reflexivity. Qed.
+
+(** What the modules on this property's path consist of besides the function bodies is the recorded one: every signature with its
+    defaults and keyword-only arguments, decorators, class bases, method lists and module-level statements (imports, constants) --
+    regenerated on every run. *)
+From SymfcG Require Import SkelBasis SkelEig SkelMat.
+Theorem c03_module_skeletons_in_force : SkelBasis_as_recorded = true /\ SkelEig_as_recorded = true /\ SkelMat_as_recorded = true.
+Proof. repeat split; reflexivity. Qed.
